@@ -99,6 +99,54 @@ impl<'a> Substitutions<'a> {
         self.0.values().all(|&v| v == SubstitutionValue::Identity)
     }
 
+    /// Return `true` if the given trait bound can be expressed over the parameters that are keys
+    /// of [`Self`], i.e. if [`Self::substitute`] wouldn't leave in place a parameter of the more
+    /// specific impl whose name is mapped to something other than itself.
+    ///
+    /// For mappings (`T` => `Vec<T>`, `U` => `U`) bound `Vec<T>: Dispatch` is expressible (as `T: Dispatch`)
+    /// while `T: Dispatch`, which constrains the element type, is not
+    pub fn is_expressible(&self, trait_bound: &TraitBoundIdent) -> bool {
+        struct Visitor<'a, 'b>(&'b Substitutions<'a>, bool);
+
+        impl Visitor<'_, '_> {
+            fn visit_param(&mut self, path: &syn::Path) {
+                if let Some(value) = matches_param_ident(path).and_then(|ident| self.0.0.get(ident)) {
+                    self.1 &= *value == SubstitutionValue::Identity;
+                }
+            }
+        }
+
+        impl syn::visit::Visit<'_> for Visitor<'_, '_> {
+            fn visit_type(&mut self, node: &syn::Type) {
+                if self.0.0.values().any(|v| *v == SubstitutionValue::Type(node)) {
+                    return;
+                }
+                if let syn::Type::Path(ty) = node {
+                    self.visit_param(&ty.path);
+                }
+
+                syn::visit::visit_type(self, node);
+            }
+
+            fn visit_expr(&mut self, node: &syn::Expr) {
+                if self.0.0.values().any(|v| *v == SubstitutionValue::Expr(node)) {
+                    return;
+                }
+                if let syn::Expr::Path(expr) = node {
+                    self.visit_param(&expr.path);
+                }
+
+                syn::visit::visit_expr(self, node);
+            }
+        }
+
+        let mut visitor = Visitor(self, true);
+        syn::visit::Visit::visit_type(&mut visitor, &trait_bound.0.0);
+        syn::visit::Visit::visit_path(&mut visitor, &trait_bound.1.0);
+
+        visitor.1
+    }
+
     /// Return new trait bound where all types from the given trait bound, that are values in [`Self`],
     /// were replaced with corresponding mappings. Since each type can be replaced with multiple types,
     /// this functions returns all possible combinations.
